@@ -311,6 +311,7 @@ def run_native(s, stage_dir, tier, res):
     srcs = [os.path.join(VERIF, s["spec"])] + [os.path.join(stage_dir, x) for x in s.get("link", [])]
     cc = s.get("cc", "clang")
     cmd = [cc, "-g", "-O1", "-fsanitize=address,undefined", "-fno-sanitize-recover=undefined", "-DVERIF_ERROR=yaep_error",
+           "-D__CPROVER_assigns(...)=", "-D__CPROVER_loop_invariant(...)=", "-D__CPROVER_decreases(...)=",
            "-I" + stage_dir, "-I" + os.path.join(VERIF, "contracts")] + defs + srcs + ["-o", exe] + s.get("ldflags", [])
     rc, out, err, dt = sh(cmd, wdir, 300, 64, log)
     res["build_time_s"] = dt
